@@ -514,7 +514,14 @@ def rule_whocall(run):
     run.count('bare_conversions', nbare)
 
 
+def rule_memo(run):
+    run.rule('MEMO', 'a result remembered between calls (memo dictionary, caching decorator) is keyed by every parameter it depends on', floor=1)
+    from .memo import memo_rule
+    memo_rule(run, ['fixed_format_file', 't2listing'])
+
+
 def check(run):
+    run.guarded('MEMO', rule_memo)
     run.guarded('EXC', rule_exc)
     run.guarded('NORMFLOW', rule_normflow)
     run.guarded('WHOCALL', rule_whocall)
